@@ -33,6 +33,18 @@ def exc_matches(kind, handler_names):
     return any(h == kind or h in EXC_PARENTS.get(kind, ["Exception"]) for h in handler_names)
 
 
+class Inline(ast.stmt):
+    """Synthetic statement: run `body` (a spliced callee body); its `return v`
+    outcomes become normal completion with `target` bound to v."""
+    _fields = ("body",)
+
+    def __init__(self, body, target):
+        self.body = body
+        self.target = target
+        self.lineno = getattr(body[0], "lineno", 0) if body else 0
+        self.col_offset = 0
+
+
 class StmtMixin:
     # ----------------------------------------------------------- plumbing
     def run(self, st, fn, node):
@@ -105,6 +117,18 @@ class StmtMixin:
         self.stmt_count += 1
         return m(s, st)
 
+    def s_Inline(self, s, st):
+        res = []
+        for o in self.exec_block(s.body, st):
+            if o.kind in ("return", "normal"):
+                if s.target:
+                    o.st.env[s.target] = o.val if (o.kind == "return" and o.val is not None) else NONE
+                    o.st.owned.add(s.target)
+                res.append(Outcome("normal", o.st))
+            else:
+                res.append(o)
+        return res
+
     # ----------------------------------------------------- simple statements
     def s_Pass(self, s, st):
         return [Outcome("normal", st)]
@@ -137,9 +161,29 @@ class StmtMixin:
             spec = fn(pre)
             if spec is None:
                 continue
-            # exceptional post-state: same havoc, exceptional ensures instead
-            rs = self.effect_pre_state.fork() if self.effect_pre_state is not None else st_after.fork()
-            raise Unsupported("effectful callee with raises clause (%s)" % con.qualname, node)
+            rs = self.effect_pre_state.fork()
+            rs.assume(spec["when"])
+            rs.tag("%s-raises-%s@%s" % (con.qualname.rsplit(".", 1)[-1], kind, self.ordinal(s)))
+            if "ensures" in spec:
+                # exceptional post-state: the callee's frame is havocked, exceptional ensures assumed
+                recv_name = next(iter(con.params))
+                recv = pre._env[recv_name]
+                rec = dict(recv.t)
+                for a in con.modifies:
+                    if a in rec:
+                        rec[a] = fresh(rec[a].ty, "%s.%s_exc" % (recv_name, a), self.classes_fields())
+                        for f in wf(rec[a]):
+                            rs.assume(f)
+                env2 = dict(pre._env)
+                env2[recv_name] = Val(recv.ty, rec)
+                for label, f in spec["ensures"](S.Ctx(env2, old=pre, result=None)):
+                    rs.assume(f)
+                if recv_node is not None:
+                    hz = self.hz
+                    self.hz = []
+                    self.assign_to(recv_node, env2[recv_name], rs, check_owned=False)
+                    self.hz = hz
+            outs.append(Outcome("raise", rs, exc=kind))
         return outs
 
     def eval_hint(self, node, st, hint):
@@ -382,8 +426,20 @@ class StmtMixin:
 
     # ------------------------------------------------------------------ try
     def s_Try(self, s, st):
-        if s.finalbody or s.orelse:
-            raise Unsupported("try/finally or try/else", s)
+        if s.orelse:
+            raise Unsupported("try/else", s)
+        if s.finalbody:
+            inner = ast.Try(body=s.body, handlers=s.handlers, orelse=[], finalbody=[]) if s.handlers else None
+            outs = self.s_Try(inner, st) if inner is not None else self.exec_block(s.body, st)
+            res = []
+            for o in outs:
+                o.st.tag("finally@%s" % self.ordinal(s))
+                for f in self.exec_block(s.finalbody, o.st):
+                    if f.kind == "normal":
+                        res.append(Outcome(o.kind, f.st, val=o.val, exc=o.exc))
+                    else:
+                        res.append(f)  # the finally block's own exit wins
+            return res
         res = []
         for o in self.exec_block(s.body, st):
             if o.kind != "raise":
